@@ -54,11 +54,66 @@ def run_shard(shard, ctx):
             ctx.count('configs_skipped_out_of_time')
             continue
         check_config(cfg, ctx, lazy=False)
+    for _ in range(6 if ctx.tier == 'quick' else 40):
+        if not ctx.out_of_time():
+            check_shared_numspace(ctx)
     for cfg in shard['lazy']:
         if ctx.out_of_time():
             ctx.count('configs_skipped_out_of_time')
             continue
         check_config(cfg, ctx, lazy=True)
+
+
+def check_shared_numspace(ctx):
+    """Two algebras of one dimension with different signatures that share one `numspace` (dataclasses.replace(alg, signature=...) or
+    numspace=alg.numspace) and have a wrapper configured: blade products are taken in A, then in B, then in A again - every algebra
+    keeps following its own Clifford relations."""
+    import dataclasses
+    from kingdon import Algebra
+    rng = ctx.rng
+    d = rng.choice((2, 3, 3, 4))
+    sigA = gen.random_sig(rng, d)
+    sigB = gen.random_sig(rng, d)
+    if list(sigA) == list(sigB):
+        sigB = [-s if s else 1 for s in sigA]
+    how = rng.choice(('replace', 'numspace='))
+    wrapper = rng.choice((gen.identity_wrapper, gen.wraps_wrapper))
+    cid = ['shared-numspace', [int(s) for s in sigA], [int(s) for s in sigB], how]
+    if not ctx.want(cid):
+        return
+    try:
+        A = Algebra(signature=list(sigA), wrapper=wrapper)
+        B = dataclasses.replace(A, signature=list(sigB)) if how == 'replace' else Algebra(signature=list(sigB), wrapper=wrapper, numspace=A.numspace)
+        if B.numspace is not A.numspace:
+            ctx.count('derived_algebra_did_not_share_numspace')
+            return
+        isos = {'A': Iso(A), 'B': Iso(B)}
+    except Exception as e:
+        ctx.note_raised(e, 'shared-numspace-construct')
+        return
+    ctx.count('shared_numspace_algebra_pairs')
+    ctx.case(cid)
+    keys = list(A.canon2bin.values())
+    pairs = [(rng.choice(keys), rng.choice(keys)) for _ in range(40)] if d > 2 else list(itertools.product(keys, repeat=2))
+    bad = []
+    n = 0
+    for phase, alg in (('A first', A), ('B after A', B), ('A after B', A), ('B again', B)):
+        iso = isos[phase[0]]
+        for I, J in pairs:
+            try:
+                got = mv_dict(alg.blades[alg.bin2canon[I]] * alg.blades[alg.bin2canon[J]])
+            except Exception as e:
+                ctx.note_raised(e, 'shared-numspace-gp')
+                continue
+            n += 1
+            s, K = expected_sign(iso, I, J)
+            if elem_diff(got, {K: s} if s else {}):
+                bad.append([phase, alg.bin2canon[I], alg.bin2canon[J], show_elem(got), f'{s}*{alg.bin2canon[K]}'])
+    ctx.count('gp_blade_products_executed', n)
+    ctx.count('shared_numspace_blade_products', n)
+    if bad:
+        ctx.violation('blade-product wrong in an algebra that shares its numspace with another one', cid, signature_A=[int(s) for s in sigA],
+                      signature_B=[int(s) for s in sigB], derived_by=how, mismatches=bad[:8], n_mismatch=len(bad))
 
 
 def expected_sign(iso, I, J):
